@@ -276,7 +276,7 @@ def run(src, config, keep_body, keep, via, case):
                 raise Violation('`p8tool luamin` on two carts raised %r' % e, case, 'cli')
             if rc != 0:
                 raise Violation('`p8tool luamin` on two carts returned %r' % rc, case, 'cli')
-            out = reffmt.read_p8(open(os.path.join(td, 'second_fmt.p8'), 'rb').read())['code']
+            out = reffmt.read_written(open(os.path.join(td, 'second_fmt.p8'), 'rb').read(), case)['code']
         elif via == 'luamin':
             what = '`p8tool luamin`'
             path = os.path.join(td, 'c.p8')
@@ -288,7 +288,7 @@ def run(src, config, keep_body, keep, via, case):
                 raise Violation('`p8tool luamin` raised %r' % e, case, 'cli')
             if rc != 0:
                 raise Violation('`p8tool luamin` returned %r' % rc, case, 'cli')
-            out = reffmt.read_p8(open(os.path.join(td, 'c_fmt.p8'), 'rb').read())['code']
+            out = reffmt.read_written(open(os.path.join(td, 'c_fmt.p8'), 'rb').read(), case)['code']
         else:
             what = '`p8tool build --lua-minify`'
             lp = os.path.join(td, 'm.lua')
@@ -301,7 +301,7 @@ def run(src, config, keep_body, keep, via, case):
                 raise Violation('`p8tool build --lua-minify` raised %r' % e, case, 'cli')
             if rc != 0:
                 raise Violation('`p8tool build --lua-minify` returned %r' % rc, case, 'cli')
-            out = reffmt.read_p8(open(outp, 'rb').read())['code']
+            out = reffmt.read_written(open(outp, 'rb').read(), case)['code']
     pairs = ident_pairs(src, out, case, what)
     return check_pairs(pairs, config, keep, case, what)
 
@@ -431,7 +431,7 @@ def run_rewritten(src, bodies, via, case):
                     raise Violation('`p8tool luamin` raised %r' % e, c, 'cli')
                 if rc != 0:
                     raise Violation('`p8tool luamin` returned %r' % rc, c, 'cli')
-                out = reffmt.read_p8(open(os.path.join(td, 'c_fmt.p8'), 'rb').read())['code']
+                out = reffmt.read_written(open(os.path.join(td, 'c_fmt.p8'), 'rb').read(), c)['code']
                 what = '`p8tool luamin` (run %d on the same keep-file path)' % (step + 1)
             check_pairs(ident_pairs(src, out, c, what), 'keep_file', keep, c, what)
 
